@@ -167,6 +167,10 @@ func runC05(env *core.Env) {
 		for _, t := range tornVariants(r) {
 			roots = append(roots, t)
 		}
+		// what a compact/plan that died between writing its temp file and the rename leaves behind
+		stale := r.Clone()
+		stale[r.LogName()+".tmp"] = append([]byte{}, r.Log()...)
+		roots = append(roots, stale)
 	}
 	maxDepth := 4
 	maxTasks, maxEpics := 2, 2
@@ -307,7 +311,7 @@ func runC05(env *core.Env) {
 		"exhaustive": b.CapHit == "" || b.CapHit == "max_depth", "cap_hit": b.CapHit, "history_depth_completed": b.DepthDone, "roots": len(roots),
 		"states_checked": statesChecked, "commuting_diagram_checks": commuteChecks, "states_by_depth": classes.snapshot(),
 		"unconfirmed_candidates": unconfirmed.Load(),
-		"bound":                  fmt.Sprintf("every history of depth <= %d over the alphabet (new epic/task in 2-6 forms, plan, set title/body/claim/unclaim/state x3-6/epic x3/result x1-2, claim, claim <id>, sequence/rm on task and epic pairs, prune, compact; <=%d tasks, <=%d epics beyond the root's) from the fresh store, and every single op (depth 1) from %d further roots (rich, the repository's legacy sample project, synthetic legacy untitled items, each also with 3 torn tails); state key = the whole normalised history (no abstraction)", maxDepth, maxTasks, maxEpics, len(roots)-1),
+		"bound":                  fmt.Sprintf("every history of depth <= %d over the alphabet (new epic/task in 2-6 forms, plan, set title/body/claim/unclaim/state x3-6/epic x3/result x1-2, claim, claim <id>, sequence/rm on task and epic pairs, prune, compact; <=%d tasks, <=%d epics beyond the root's) from the fresh store, and every single op (depth 1) from %d further roots (rich, the repository's legacy sample project, synthetic legacy untitled items, each also with 3 torn tails and with a stale temp file of a crashed rewrite); state key = the whole normalised history (no abstraction)", maxDepth, maxTasks, maxEpics, len(roots)-1),
 	}, []string{"ids are scripted (deterministic per path), timestamps are real; same-log comparisons are byte-exact, cross-run comparisons drop timestamps"})
 }
 
